@@ -147,3 +147,766 @@ Proof.
     + apply replay_from_restored. apply load_snapshot_restored.
     + simpl sn_state. rewrite rebuild_as_of. unfold replay. apply restored_eq_refl.
 Qed.
+
+(* ------------------------------------------------------------------------------------------------ *)
+(* C12: the replay invariant over recording runs                                                     *)
+(* ------------------------------------------------------------------------------------------------ *)
+
+Lemma entity_eqb_eq a b : entity_eqb a b = true <-> a = b.
+Proof.
+  destruct a, b; simpl; split; intros H; try congruence; try discriminate.
+  - apply N.eqb_eq in H. congruence.
+  - inversion H. apply N.eqb_refl.
+  - apply N.eqb_eq in H. congruence.
+  - inversion H. apply N.eqb_refl.
+Qed.
+
+Lemma entity_eqb_refl a : entity_eqb a a = true.
+Proof. now apply entity_eqb_eq. Qed.
+
+Lemma entity_eqb_neq a b : entity_eqb a b = false <-> a <> b.
+Proof.
+  split.
+  - intros H E. apply entity_eqb_eq in E. congruence.
+  - intros H. destruct (entity_eqb a b) eqn:E; auto. apply entity_eqb_eq in E. contradiction.
+Qed.
+
+Local Arguments status_effect : simpl never.
+
+Lemma apply_status_sets t e old :
+  apply_status t e old = match status_effect t (kind e) with
+                         | SE_none => old
+                         | SE_const s => Some s
+                         | SE_data d => Some (match d_status e with Some s => s | None => d end)
+                         end.
+Proof. reflexivity. Qed.
+
+Lemma w_status_apply_workflow st e : w_status (apply_workflow_event st e) = apply_status ET_WORKFLOW e (w_status st).
+Proof. unfold apply_workflow_event. destruct (kind e); reflexivity. Qed.
+
+Lemma stages_apply_workflow st e : r_stages (apply_workflow_event st e) = r_stages st.
+Proof. unfold apply_workflow_event. destruct (kind e); reflexivity. Qed.
+
+Lemma tasks_apply_workflow st e : r_tasks (apply_workflow_event st e) = r_tasks st.
+Proof. unfold apply_workflow_event. destruct (kind e); reflexivity. Qed.
+
+Lemma s_status_apply_fields s e : s_status (apply_stage_fields s e) = apply_status ET_STAGE e (s_status s).
+Proof. unfold apply_stage_fields. destruct (kind e); reflexivity. Qed.
+
+Lemma k_status_apply_fields t e : k_status (apply_task_fields t e) = apply_status ET_TASK e (k_status t).
+Proof. unfold apply_task_fields. destruct (kind e); reflexivity. Qed.
+
+(* one event changes the replayed status of its own entity only, and by the table alone *)
+Lemma rstatus_apply_event st e x :
+  rstatus (apply_event st e) x
+  = if entity_eqb (event_entity e) x
+    then match sets_status e with Some s => Some s | None => rstatus st x end
+    else rstatus st x.
+Proof.
+  unfold apply_event, event_entity, sets_status. destruct (ety e) eqn:Ety.
+  - destruct x; simpl.
+    + rewrite w_status_apply_workflow, apply_status_sets. destruct (status_effect ET_WORKFLOW (kind e)); reflexivity.
+    + now rewrite stages_apply_workflow.
+    + now rewrite tasks_apply_workflow.
+  - destruct x; simpl; auto.
+    destruct (N.eqb (eid e) i) eqn:E.
+    + apply N.eqb_eq in E. subst i. rewrite aget_aset_same, s_status_apply_fields, apply_status_sets.
+      destruct (aget (eid e) (r_stages st)); simpl; destruct (status_effect ET_STAGE (kind e)); reflexivity.
+    + rewrite aget_aset_other; auto. intros ->. now rewrite N.eqb_refl in E.
+  - destruct x; simpl; auto.
+    destruct (N.eqb (eid e) i) eqn:E.
+    + apply N.eqb_eq in E. subst i. rewrite aget_aset_same, k_status_apply_fields, apply_status_sets.
+      destruct (aget (eid e) (r_tasks st)); simpl; destruct (status_effect ET_TASK (kind e)); reflexivity.
+    + rewrite aget_aset_other; auto. intros ->. now rewrite N.eqb_refl in E.
+Qed.
+
+Lemma last_set_snoc evs e x :
+  last_set (evs ++ [e]) x
+  = if entity_eqb (event_entity e) x
+    then match sets_status e with Some s => Some s | None => last_set evs x end
+    else last_set evs x.
+Proof. unfold last_set. rewrite fold_left_app. reflexivity. Qed.
+
+Lemma rstatus_replay_from evs : forall st x,
+  rstatus (replay_from st evs) x = match last_set evs x with Some s => Some s | None => rstatus st x end.
+Proof.
+  induction evs as [|e evs IH] using rev_ind; intros st x.
+  - reflexivity.
+  - rewrite replay_from_app. simpl. rewrite rstatus_apply_event, last_set_snoc, IH.
+    destruct (entity_eqb (event_entity e) x); auto. destruct (sets_status e); auto.
+Qed.
+
+Lemma last_set_in evs x s : last_set evs x = Some s -> In x (map event_entity evs).
+Proof.
+  induction evs as [|e evs IH] using rev_ind; [discriminate|].
+  rewrite last_set_snoc, map_app, in_app_iff. simpl.
+  destruct (entity_eqb (event_entity e) x) eqn:E.
+  - apply entity_eqb_eq in E. auto.
+  - intros H. left. auto.
+Qed.
+
+Lemma sget_sset_same x v m : sget x (sset x v m) = Some v.
+Proof.
+  induction m as [|[y v'] m IH]; simpl.
+  - now rewrite entity_eqb_refl.
+  - destruct (entity_eqb x y) eqn:E; simpl; rewrite E; auto.
+Qed.
+
+Lemma sget_sset_other x y v m : x <> y -> sget x (sset y v m) = sget x m.
+Proof.
+  intros Hne. induction m as [|[z v'] m IH]; simpl.
+  - apply entity_eqb_neq in Hne. now rewrite Hne.
+  - destruct (entity_eqb y z) eqn:E; simpl.
+    + apply entity_eqb_eq in E. subst z. apply entity_eqb_neq in Hne. now rewrite Hne.
+    + destruct (entity_eqb x z); auto.
+Qed.
+
+Lemma last_write_snoc ws w x :
+  last_write (ws ++ [w]) x = if entity_eqb (wr_ent w) x then Some w else last_write ws x.
+Proof. unfold last_write. rewrite fold_left_app. reflexivity. Qed.
+
+Lemma sget_apply_writes ws : forall m x,
+  sget x (apply_writes m ws) = match last_write ws x with
+                               | Some w => Some (wr_new w, wr_regular w)
+                               | None => sget x m
+                               end.
+Proof.
+  induction ws as [|w ws IH] using rev_ind; intros m x; [reflexivity|].
+  unfold apply_writes. rewrite fold_left_app. simpl. fold (apply_writes m ws).
+  rewrite last_write_snoc. unfold apply_write.
+  destruct (entity_eqb (wr_ent w) x) eqn:E.
+  - apply entity_eqb_eq in E. subst x. apply sget_sset_same.
+  - rewrite sget_sset_other; [apply IH|]. apply entity_eqb_neq in E. congruence.
+Qed.
+
+Lemma last_write_in ws x w : last_write ws x = Some w -> In x (map wr_ent ws).
+Proof.
+  induction ws as [|w' ws IH] using rev_ind; [discriminate|].
+  rewrite last_write_snoc, map_app, in_app_iff. simpl.
+  destruct (entity_eqb (wr_ent w') x) eqn:E.
+  - apply entity_eqb_eq in E. auto.
+  - intros H. left. eauto.
+Qed.
+
+Definition rec_inv (m : stored) (log : list event) : Prop := forall x, agrees m (replay log) x = true.
+
+Lemma opt_status_eqb_eq a b : opt_status_eqb a b = true <-> a = b.
+Proof.
+  destruct a, b; simpl; split; intros H; try congruence; try discriminate.
+  - apply status_eqb_eq in H. congruence.
+  - inversion H. apply status_eqb_refl.
+Qed.
+
+Lemma rec_inv_step m log st :
+  rec_inv m log -> step_ok st = true -> rec_inv (apply_writes m (fst st)) (log ++ snd st).
+Proof.
+  intros Hinv Hok x. unfold agrees. rewrite sget_apply_writes.
+  unfold replay. rewrite replay_from_app. fold (replay log). rewrite rstatus_replay_from.
+  unfold step_ok in Hok. rewrite forallb_forall in Hok.
+  destruct (last_write (fst st) x) as [w|] eqn:Elw.
+  - destruct (wr_regular w) eqn:Ereg; auto.
+    assert (Hin : In x (entities_of st)).
+    { unfold entities_of. apply in_app_iff. left. eapply last_write_in; eauto. }
+    specialize (Hok x Hin). unfold entity_ok in Hok. rewrite Elw, Ereg in Hok.
+    apply opt_status_eqb_eq in Hok. rewrite Hok. simpl. apply status_eqb_refl.
+  - destruct (last_set (snd st) x) as [s|] eqn:Els.
+    + assert (Hin : In x (entities_of st)).
+      { unfold entities_of. apply in_app_iff. right. eapply last_set_in; eauto. }
+      specialize (Hok x Hin). unfold entity_ok in Hok. rewrite Elw, Els in Hok. discriminate.
+    + specialize (Hinv x). unfold agrees in Hinv. exact Hinv.
+Qed.
+
+Lemma rec_inv_run run : forall m log,
+  rec_inv m log -> forallb step_ok run = true ->
+  rec_inv (fold_left (fun m st => apply_writes m (fst st)) run m) (log ++ run_log run).
+Proof.
+  induction run as [|st run IH]; intros m log Hinv Hok; simpl.
+  - unfold run_log. simpl. now rewrite app_nil_r.
+  - simpl in Hok. apply andb_true_iff in Hok. destruct Hok as [H1 H2].
+    unfold run_log. simpl. rewrite app_assoc. apply IH; auto. now apply rec_inv_step.
+Qed.
+
+Theorem replay_invariant run :
+  forallb step_ok run = true ->
+  forall x, agrees (run_store run) (replay (run_log run)) x = true.
+Proof.
+  intros Hok. apply (rec_inv_run run [] []); auto.
+  intros x. reflexivity.
+Qed.
+
+(* every lifecycle step of the engine except a task skip records the event that replays to the written status *)
+Lemma last_write_force ws x :
+  Forall (fun w => wr_regular w = false) ws ->
+  match last_write ws x with Some w => wr_regular w = false | None => True end.
+Proof.
+  induction ws as [|w ws IH] using rev_ind; intros H; simpl; auto.
+  rewrite last_write_snoc. apply Forall_app in H. destruct H as [H1 H2].
+  destruct (entity_eqb (wr_ent w) x); [now inversion H2|apply IH; exact H1].
+Qed.
+
+Ltac crunch_step :=
+  unfold step_ok, entity_ok, last_write, last_set, entities_of; cbn; rewrite ?N.eqb_refl; cbn; try reflexivity.
+
+Lemma cancel_stage_ok tag i ts x : entity_ok (record_of tag (LCancelStage i ts)) x = true.
+Proof.
+  unfold entity_ok. cbn [record_of fst snd]. rewrite last_write_snoc. cbn [wr_ent].
+  destruct (entity_eqb (EStage i) x) eqn:E.
+  - apply entity_eqb_eq in E. subst x. unfold last_set. cbn. rewrite N.eqb_refl. reflexivity.
+  - pose proof (last_write_force (map (fun t => mkW (ETask t) CANCELED false tag) ts) x) as Hf.
+    destruct (last_write (map (fun t => mkW (ETask t) CANCELED false tag) ts) x) as [w|].
+    + rewrite Hf; auto. apply Forall_forall. intros w' Hw'. apply in_map_iff in Hw'. destruct Hw' as (t & <- & _). reflexivity.
+    + unfold last_set. cbn. cbn in E. rewrite E. reflexivity.
+Qed.
+
+Lemma record_of_ok tag st :
+  is_task_skip st = false -> is_stage_err st = false -> step_ok (record_of tag st) = true.
+Proof.
+  intros Hs He. destruct st; simpl in Hs, He; try discriminate.
+  - crunch_step.
+  - destruct s; crunch_step.
+  - crunch_step.
+  - destruct s; crunch_step.
+  - crunch_step.
+  - unfold step_ok. apply forallb_forall. intros x _. apply cancel_stage_ok.
+  - crunch_step.
+  - destruct s; try discriminate; crunch_step.
+  - crunch_step. rewrite entity_eqb_refl. reflexivity.
+Qed.
+
+Lemma records_from_ok steps : forall tag,
+  forallb (fun st => negb (is_task_skip st) && negb (is_stage_err st)) steps = true ->
+  forallb step_ok (records_from tag steps) = true.
+Proof.
+  induction steps as [|st steps IH]; intros tag H; simpl; auto.
+  simpl in H. apply andb_true_iff in H. destruct H as [H1 H2].
+  apply andb_true_iff in H1. destruct H1 as [Ha Hb].
+  apply negb_true_iff in Ha. apply negb_true_iff in Hb.
+  rewrite record_of_ok; auto. simpl. apply IH; auto.
+Qed.
+
+Theorem engine_replay steps tag :
+  forallb (fun st => negb (is_task_skip st) && negb (is_stage_err st)) steps = true ->
+  forall x, agrees (run_store (records_from tag steps)) (replay (run_log (records_from tag steps))) x = true.
+Proof. intros H. apply replay_invariant. now apply records_from_ok. Qed.
+
+(* ------------------------------------------------------------------------------------------------ *)
+(* C13: sequence numbers                                                                             *)
+(* ------------------------------------------------------------------------------------------------ *)
+
+Definition log_ok (l : list event) (c : N) : Prop :=
+  StronglySorted N.lt (map seq l) /\ Forall (fun e => 0 < seq e <= c) l.
+
+Definition seq_inv (s : tstate) : Prop :=
+  log_ok (db_log (durable s)) (db_ctr (durable s))
+  /\ log_ok (db_log (working s)) (db_ctr (working s))
+  /\ db_ctr (durable s) <= db_ctr (working s).
+
+Lemma sorted_snoc l y : StronglySorted N.lt l -> Forall (fun x => x < y) l -> StronglySorted N.lt (l ++ [y]).
+Proof.
+  induction 1 as [|a l Hs IH Ha]; intros Hy; simpl.
+  - constructor; constructor.
+  - inversion Hy; subst. constructor; auto.
+    apply Forall_app. split; auto.
+Qed.
+
+Lemma log_ok_mono l c c' : log_ok l c -> c <= c' -> log_ok l c'.
+Proof.
+  intros [H1 H2] Hle. split; auto. eapply Forall_impl; [|exact H2]. simpl. intros; lia.
+Qed.
+
+Lemma seq_set_seq n e : seq (set_seq n e) = n.
+Proof. reflexivity. Qed.
+
+Lemma log_ok_snoc l c c' e : log_ok l c -> c <= c' -> log_ok (l ++ [set_seq (c' + 1) e]) (c' + 1).
+Proof.
+  intros [H1 H2] Hle. split.
+  - rewrite map_app. simpl. apply sorted_snoc; auto.
+    apply Forall_map. eapply Forall_impl; [|exact H2]. simpl. intros; lia.
+  - apply Forall_app. split.
+    + eapply Forall_impl; [|exact H2]. simpl. intros; lia.
+    + constructor; [|constructor]. rewrite seq_set_seq. lia.
+Qed.
+
+Lemma tstep_seq_inv same_db s o : seq_inv s -> seq_inv (tstep same_db s o).
+Proof.
+  intros (Hd & Hw & Hle). unfold seq_inv. destruct o; simpl.
+  - destruct (depth s); simpl; (split; [exact Hd|split; [exact Hw|exact Hle]]).
+  - split; [exact Hd|split; [exact Hw|exact Hle]].
+  - split; [exact Hw|split; [exact Hw|lia]].
+  - unfold db_append. simpl.
+    assert (Hwk : log_ok (db_log (working s) ++ [set_seq (db_ctr (working s) + 1) e]) (db_ctr (working s) + 1))
+      by (apply log_ok_snoc with (c := db_ctr (working s)); auto; lia).
+    assert (Hdu : log_ok (db_log (durable s) ++ [set_seq (db_ctr (working s) + 1) e]) (db_ctr (working s) + 1))
+      by (apply log_ok_snoc with (c := db_ctr (durable s)); auto).
+    destruct (depth s); destruct same_db; simpl;
+      first [ split; [exact Hwk|split; [exact Hwk|lia]]
+            | split; [exact Hdu|split; [exact Hwk|lia]]
+            | split; [exact Hd|split; [exact Hwk|lia]] ].
+  - destruct (depth s) as [|[|d]]; simpl; (split; [exact Hw|split; [exact Hw|lia]]).
+  - destruct (depth s) as [|[|d]]; simpl; (split; [exact Hd|split; [exact Hd|lia]]).
+  - split; [exact Hd|split; [exact Hd|lia]].
+Qed.
+
+Lemma trun_seq_inv same_db ops : forall s, seq_inv s -> seq_inv (trun same_db s ops).
+Proof.
+  induction ops as [|o ops IH]; intros s H; simpl; auto.
+  apply IH. now apply tstep_seq_inv.
+Qed.
+
+Lemma seq_inv_init : seq_inv init_tstate.
+Proof. repeat split; simpl; try constructor; lia. Qed.
+
+Lemma sorted_lt_nodup l : StronglySorted N.lt l -> NoDup l.
+Proof.
+  induction 1 as [|a l Hs IH Ha]; constructor; auto.
+  intros Hin. rewrite Forall_forall in Ha. specialize (Ha a Hin). lia.
+Qed.
+
+Theorem sequence_increasing same_db ops :
+  let log := db_log (durable (trun same_db init_tstate ops)) in
+  StronglySorted N.lt (map seq log) /\ NoDup (map seq log) /\ Forall (fun e => 0 < seq e) log.
+Proof.
+  pose proof (trun_seq_inv same_db ops init_tstate seq_inv_init) as ((H1 & H2) & _).
+  simpl. split; [exact H1|]. split; [now apply sorted_lt_nodup|].
+  eapply Forall_impl; [|exact H2]. simpl. intros; lia.
+Qed.
+
+(* a log with strictly increasing sequence numbers is in the order get_events_for_workflow returns it *)
+Lemma sorted_lt_seq_sorted l : StronglySorted N.lt (map seq l) -> seq_sorted l.
+Proof.
+  unfold seq_sorted. induction l as [|a l IH]; intros H; [constructor|].
+  simpl in H. inversion H; subst. constructor; auto.
+  rewrite Forall_map in H3. eapply Forall_impl; [|exact H3]. simpl. intros; lia.
+Qed.
+
+(* ------------------------------------------------------------------------------------------------ *)
+(* C13: publication after commit                                                                     *)
+(* ------------------------------------------------------------------------------------------------ *)
+
+Lemma subseq_refl {A} (l : list A) : subseq l l.
+Proof. induction l; [apply subseq_nil|apply subseq_take; auto]. Qed.
+
+Lemma subseq_nil_l {A} (l : list A) : subseq [] l.
+Proof. induction l; [apply subseq_nil|apply subseq_skip; auto]. Qed.
+
+Lemma subseq_app_r {A} (a l : list A) x : subseq a l -> subseq a (l ++ [x]).
+Proof.
+  induction 1; simpl.
+  - apply subseq_skip, subseq_nil.
+  - apply subseq_skip; auto.
+  - apply subseq_take; auto.
+Qed.
+
+Lemma subseq_snoc {A} (a l : list A) x : subseq a l -> subseq (a ++ [x]) (l ++ [x]).
+Proof.
+  induction 1; simpl.
+  - apply subseq_take, subseq_nil.
+  - apply subseq_skip; auto.
+  - apply subseq_take; auto.
+Qed.
+
+Lemma subseq_prefix {A} (a b l : list A) : subseq (a ++ b) l -> subseq a l.
+Proof.
+  revert a b. induction l as [|x l IH]; intros a b H.
+  - inversion H as [Hn| |]. destruct a; [apply subseq_nil|discriminate].
+  - inversion H as [|a0 l0 x0 Hs|a0 l0 x0 Hs Ha]; subst.
+    + apply subseq_skip. eapply IH; eauto.
+    + destruct a as [|y a]; simpl in *.
+      * apply subseq_nil_l.
+      * inversion Ha; subst. apply subseq_take. eapply IH; eauto.
+Qed.
+
+Lemma subseq_in {A} (a l : list A) x : subseq a l -> In x a -> In x l.
+Proof.
+  induction 1; simpl; intros Hin; auto.
+  destruct Hin as [<-|Hin]; auto.
+Qed.
+
+Definition pub_inv (s : tstate) : Prop :=
+  subseq (published s) (db_log (durable s))
+  /\ subseq (published s ++ pending s) (db_log (working s))
+  /\ (depth s = 0%nat -> pending s = [])
+  /\ (depth s <= 1)%nat.
+
+Lemma tstep_pub_inv same_db s o :
+  pub_inv s -> flat_from (depth s) [o] = true -> pub_inv (tstep same_db s o).
+Proof.
+  intros (H1 & H2 & H3 & H4) Hflat.
+  assert (Hpre : subseq (published s) (db_log (working s))) by (eapply subseq_prefix; eauto).
+  unfold pub_inv. destruct o; simpl in *.
+  - destruct (depth s) as [|d] eqn:Ed; [|discriminate]. simpl.
+    rewrite app_nil_r. split; [exact H1|split; [exact Hpre|split; [discriminate|lia]]].
+  - split; [exact H1|split; [exact H2|split; [exact H3|exact H4]]].
+  - split; [exact Hpre|split; [exact H2|split; [exact H3|exact H4]]].
+  - unfold db_append. simpl.
+    destruct (depth s) as [|d] eqn:Ed.
+    + rewrite (H3 eq_refl) in *. rewrite app_nil_r in *.
+      destruct same_db; simpl; rewrite ?app_nil_r.
+      * split; [apply subseq_snoc; exact H2|split; [apply subseq_snoc; exact H2|split; [reflexivity|lia]]].
+      * split; [apply subseq_snoc; exact H1|split; [apply subseq_snoc; exact H2|split; [reflexivity|lia]]].
+    + destruct same_db; simpl.
+      * split; [exact H1|split; [rewrite app_assoc; apply subseq_snoc; exact H2|split; [discriminate|exact H4]]].
+      * split; [apply subseq_app_r; exact H1|split; [rewrite app_assoc; apply subseq_snoc; exact H2|split; [discriminate|exact H4]]].
+  - destruct (depth s) as [|[|d]] eqn:Ed; simpl.
+    + split; [exact Hpre|split; [exact H2|split; [exact H3|lia]]].
+    + rewrite app_nil_r. split; [exact H2|split; [exact H2|split; [reflexivity|lia]]].
+    + lia.
+  - destruct (depth s) as [|[|d]] eqn:Ed; simpl.
+    + rewrite (H3 eq_refl), app_nil_r. split; [exact H1|split; [exact H1|split; [reflexivity|lia]]].
+    + rewrite app_nil_r. split; [exact H1|split; [exact H1|split; [reflexivity|lia]]].
+    + lia.
+  - rewrite app_nil_r. split; [exact H1|split; [exact H1|split; [reflexivity|lia]]].
+Qed.
+
+Lemma flat_from_cons d o ops :
+  flat_from d (o :: ops) = true ->
+  flat_from d [o] = true /\ forall same_db s, depth s = d -> flat_from (depth (tstep same_db s o)) ops = true.
+Proof.
+  intros H. destruct o; simpl in *.
+  - destruct d; [|discriminate]. split; auto. intros sd s Hd. rewrite Hd. simpl. exact H.
+  - split; auto. intros sd s Hd. simpl. now rewrite Hd.
+  - split; auto. intros sd s Hd. simpl. now rewrite Hd.
+  - split; auto. intros sd s Hd. simpl. unfold db_append. simpl.
+    rewrite Hd. destruct d; destruct sd; simpl; exact H.
+  - split; auto. intros sd s Hd. rewrite Hd. destruct d as [|[|d]]; simpl; exact H.
+  - split; auto. intros sd s Hd. rewrite Hd. destruct d as [|[|d]]; simpl; exact H.
+  - split; auto.
+Qed.
+
+Lemma trun_pub_inv same_db ops : forall s,
+  pub_inv s -> flat_from (depth s) ops = true -> pub_inv (trun same_db s ops).
+Proof.
+  induction ops as [|o ops IH]; intros s Hinv Hflat; simpl; auto.
+  apply flat_from_cons in Hflat. destruct Hflat as [Hf1 Hf2].
+  apply IH.
+  - apply tstep_pub_inv; auto.
+  - apply Hf2. reflexivity.
+Qed.
+
+Lemma pub_inv_init : pub_inv init_tstate.
+Proof. repeat split; simpl; auto; constructor. Qed.
+
+Theorem publish_after_commit same_db ops :
+  flat_from 0 ops = true ->
+  let s := trun same_db init_tstate ops in
+  subseq (published s) (db_log (durable s)).
+Proof.
+  intros Hflat. apply (trun_pub_inv same_db ops init_tstate pub_inv_init Hflat).
+Qed.
+
+(* every published event is durable at that moment (and the log only grows) *)
+Corollary published_are_durable same_db ops e :
+  flat_from 0 ops = true ->
+  In e (published (trun same_db init_tstate ops)) -> In e (db_log (durable (trun same_db init_tstate ops))).
+Proof. intros Hf Hin. eapply subseq_in; [apply publish_after_commit; exact Hf|exact Hin]. Qed.
+
+(* ------------------------------------------------------------------------------------------------ *)
+(* C13: transaction blocks -- state and events of a block are one commit                             *)
+(* ------------------------------------------------------------------------------------------------ *)
+
+Fixpoint db_apply_items (d : dbs) (items : list item) : dbs * list event :=
+  match items with
+  | [] => (d, [])
+  | IWrite w :: r => db_apply_items (db_write w d) r
+  | IRecord e :: r =>
+      let p := db_append e d in
+      let q := db_apply_items (fst p) r in
+      (fst q, snd p :: snd q)
+  end.
+
+Definition quiescent (s : tstate) : Prop := depth s = 0%nat /\ working s = durable s /\ pending s = [].
+
+Lemma run_items items : forall s n,
+  depth s = S n ->
+  trun true s (map item_op items)
+  = mkT (durable s) (fst (db_apply_items (working s) items)) (depth s)
+        (pending s ++ snd (db_apply_items (working s) items)) (published s).
+Proof.
+  induction items as [|it items IH]; intros s n Hd; simpl.
+  - rewrite app_nil_r. destruct s; reflexivity.
+  - destruct it as [w|e]; simpl.
+    + rewrite (IH _ n); simpl; auto.
+    + rewrite Hd. simpl. rewrite (IH _ n); simpl; auto.
+      rewrite <- app_assoc. reflexivity.
+Qed.
+
+Lemma trun_app same_db s a b : trun same_db s (a ++ b) = trun same_db (trun same_db s a) b.
+Proof. unfold trun. apply fold_left_app. Qed.
+
+Lemma run_block s items f :
+  quiescent s ->
+  trun true s (block_ops (items, f))
+  = match f with
+    | FCommit => let r := db_apply_items (durable s) items in mkT (fst r) (fst r) 0%nat [] (published s ++ snd r)
+    | _ => s
+    end.
+Proof.
+  intros (Hd & Hw & Hp). unfold block_ops. simpl fst. simpl snd.
+  change (OBegin :: map item_op items ++ [fate_op f]) with ([OBegin] ++ map item_op items ++ [fate_op f]).
+  rewrite !trun_app. simpl (trun true s [OBegin]). rewrite Hd.
+  rewrite (run_items items _ 0%nat) by reflexivity. simpl.
+  rewrite Hw. destruct f; simpl; auto.
+  - destruct s; simpl in *; subst; reflexivity.
+  - destruct s; simpl in *; subst; reflexivity.
+Qed.
+
+Lemma quiescent_block s items f : quiescent s -> quiescent (trun true s (block_ops (items, f))).
+Proof.
+  intros Hq. rewrite run_block; auto. destruct f; auto. repeat split; reflexivity.
+Qed.
+
+Lemma unseq_set_seq n e : unseq (set_seq n e) = unseq e.
+Proof. reflexivity. Qed.
+
+Lemma apply_items_writes items : forall d,
+  db_writes (fst (db_apply_items d items)) = db_writes d ++ item_writes items.
+Proof.
+  induction items as [|[w|e] items IH]; intros d; simpl.
+  - now rewrite app_nil_r.
+  - rewrite IH. simpl. now rewrite <- app_assoc.
+  - rewrite IH. reflexivity.
+Qed.
+
+Lemma apply_items_log items : forall d,
+  db_log (fst (db_apply_items d items)) = db_log d ++ snd (db_apply_items d items).
+Proof.
+  induction items as [|[w|e] items IH]; intros d; simpl.
+  - now rewrite app_nil_r.
+  - rewrite IH. reflexivity.
+  - rewrite IH. simpl. now rewrite <- app_assoc.
+Qed.
+
+Lemma apply_items_events items : forall d,
+  map unseq (snd (db_apply_items d items)) = map unseq (item_events items).
+Proof.
+  induction items as [|[w|e] items IH]; intros d; simpl; auto.
+  rewrite IH. reflexivity.
+Qed.
+
+Lemma apply_items_tags items : forall d,
+  map etag (snd (db_apply_items d items)) = map etag (item_events items).
+Proof.
+  induction items as [|[w|e] items IH]; intros d; simpl; auto.
+  rewrite IH. reflexivity.
+Qed.
+
+Definition committed_writes (bs : list block) : list write :=
+  concat (map (fun b => item_writes (fst b)) (filter committed bs)).
+Definition committed_events (bs : list block) : list event :=
+  concat (map (fun b => item_events (fst b)) (filter committed bs)).
+
+Lemma blocks_ops_cons b bs : blocks_ops (b :: bs) = block_ops b ++ blocks_ops bs.
+Proof. reflexivity. Qed.
+
+Lemma committed_writes_cons items f bs :
+  committed_writes ((items, f) :: bs) = (match f with FCommit => item_writes items | _ => [] end) ++ committed_writes bs.
+Proof. unfold committed_writes, committed. simpl. destruct f; reflexivity. Qed.
+
+Lemma committed_events_cons items f bs :
+  committed_events ((items, f) :: bs) = (match f with FCommit => item_events items | _ => [] end) ++ committed_events bs.
+Proof. unfold committed_events, committed. simpl. destruct f; reflexivity. Qed.
+
+Theorem atomic_blocks bs : forall s,
+  quiescent s ->
+  quiescent (trun true s (blocks_ops bs))
+  /\ db_writes (durable (trun true s (blocks_ops bs))) = db_writes (durable s) ++ committed_writes bs
+  /\ map unseq (db_log (durable (trun true s (blocks_ops bs)))) = map unseq (db_log (durable s)) ++ map unseq (committed_events bs)
+  /\ map unseq (published (trun true s (blocks_ops bs))) = map unseq (published s) ++ map unseq (committed_events bs).
+Proof.
+  induction bs as [|[items f] bs IH]; intros s Hq.
+  - unfold committed_writes, committed_events. simpl. rewrite !app_nil_r. auto.
+  - rewrite blocks_ops_cons, trun_app.
+    pose proof (quiescent_block s items f Hq) as Hq'.
+    destruct (IH _ Hq') as (Ha & Hb & Hc & Hd).
+    split; [exact Ha|].
+    rewrite Hb, Hc, Hd. rewrite run_block by exact Hq.
+    rewrite committed_writes_cons, committed_events_cons.
+    destruct f; simpl.
+    + rewrite apply_items_writes, apply_items_log, !map_app, apply_items_events, !app_assoc. auto.
+    + auto.
+    + auto.
+Qed.
+
+Lemma quiescent_init : quiescent init_tstate.
+Proof. repeat split. Qed.
+
+(* ------------------------------------------------------------------------------------------------ *)
+(* C13: a handler that records inside its transaction, cut anywhere                                  *)
+(* ------------------------------------------------------------------------------------------------ *)
+
+Definition fresh (t : N) (s : tstate) : Prop :=
+  has_write_tag t (durable s) = false /\ has_event_tag t (durable s) = false.
+
+Lemma firstn_snoc {A} k (l : list A) c :
+  firstn k (l ++ [c]) = if Nat.leb k (length l) then firstn k l else l ++ [c].
+Proof.
+  revert k. induction l as [|a l IH]; intros k; simpl.
+  - destruct k; simpl; auto. now rewrite firstn_nil.
+  - destruct k; simpl; auto. rewrite IH. destruct (Nat.leb k (length l)); auto.
+Qed.
+
+Lemma existsb_map_tag_w t ws : Forall (fun w => wr_tag w = t) ws -> ws <> [] -> existsb (fun w => N.eqb (wr_tag w) t) ws = true.
+Proof.
+  destruct ws as [|w ws]; [congruence|]. intros H _. inversion H; subst. simpl. now rewrite N.eqb_refl.
+Qed.
+
+Lemma has_event_tag_app t l1 l2 c :
+  has_event_tag t (mkDb l1 l2 c) = existsb (fun e => N.eqb (etag e) t) l2.
+Proof. reflexivity. Qed.
+
+Lemma existsb_etag t (l : list event) : existsb (fun e => N.eqb (etag e) t) l = existsb (N.eqb t) (map etag l).
+Proof. induction l as [|e l IH]; simpl; auto. rewrite IH. now rewrite (N.eqb_sym t). Qed.
+
+Definition in_txn_items (ws : list write) (evs : list event) : list item := map IWrite ws ++ map IRecord evs.
+
+Lemma in_txn_ops ws evs : handler_ops InTxn ws evs = block_ops (in_txn_items ws evs, FCommit).
+Proof.
+  unfold handler_ops, block_ops, in_txn_items. simpl. rewrite map_app, !map_map. simpl.
+  rewrite <- app_assoc. reflexivity.
+Qed.
+
+Lemma item_writes_in_txn ws evs : item_writes (in_txn_items ws evs) = ws.
+Proof.
+  unfold in_txn_items, item_writes. rewrite map_app, concat_app, !map_map. simpl.
+  assert (H1 : concat (map (fun w => [w]) ws) = ws) by (induction ws; simpl; congruence).
+  assert (H2 : concat (map (fun _ : event => @nil write) evs) = []) by (induction evs; simpl; auto).
+  now rewrite H1, H2, app_nil_r.
+Qed.
+
+Lemma item_events_in_txn ws evs : item_events (in_txn_items ws evs) = evs.
+Proof.
+  unfold in_txn_items, item_events. rewrite map_app, concat_app, !map_map. simpl.
+  assert (H1 : concat (map (fun _ : write => @nil event) ws) = []) by (induction ws; simpl; auto).
+  assert (H2 : concat (map (fun e => [e]) evs) = evs) by (induction evs; simpl; congruence).
+  now rewrite H1, H2.
+Qed.
+
+(* the cut handler, as a block of a prefix of its statements that never commits, or the whole block *)
+Lemma cut_in_txn s ws evs k (cut : op) :
+  quiescent s -> (cut = OCrash \/ cut = OAbort) ->
+  trun true s (firstn k (handler_ops InTxn ws evs) ++ [cut]) = s
+  \/ trun true s (firstn k (handler_ops InTxn ws evs) ++ [cut])
+     = trun true s (block_ops (in_txn_items ws evs, FCommit)).
+Proof.
+  intros Hq Hcut. rewrite in_txn_ops. unfold block_ops at 1 2. simpl fst. simpl snd. simpl fate_op.
+  destruct k as [|k].
+  - left. simpl. destruct Hq as (Hd & Hw & Hp). destruct s; simpl in *; subst.
+    destruct Hcut as [->| ->]; reflexivity.
+  - simpl firstn. rewrite firstn_snoc.
+    destruct (Nat.leb k (length (map item_op (in_txn_items ws evs)))) eqn:Ek.
+    + left. rewrite firstn_map.
+      assert (Hf : exists f, (f = FCrash \/ f = FAbort) /\ cut = fate_op f).
+      { destruct Hcut as [->| ->]; [exists FCrash|exists FAbort]; auto. }
+      destruct Hf as (f & Hf & ->).
+      change (trun true s (block_ops (firstn k (in_txn_items ws evs), f)) = s).
+      rewrite run_block by exact Hq. destruct Hf as [->| ->]; reflexivity.
+    + right.
+      change (trun true s (block_ops (in_txn_items ws evs, FCommit) ++ [cut])
+              = trun true s (block_ops (in_txn_items ws evs, FCommit))).
+      rewrite trun_app.
+      pose proof (quiescent_block s (in_txn_items ws evs) FCommit Hq) as (Hd & Hw & Hp).
+      remember (trun true s (block_ops (in_txn_items ws evs, FCommit))) as s'.
+      destruct s'; simpl in *; subst. destruct Hcut as [->| ->]; reflexivity.
+Qed.
+
+Theorem in_txn_atomic s ws evs tag k cut :
+  quiescent s -> fresh tag s ->
+  (cut = OCrash \/ cut = OAbort) ->
+  Forall (fun w => wr_tag w = tag) ws -> Forall (fun e => etag e = tag) evs -> ws <> [] -> evs <> [] ->
+  let s' := trun true s (firstn k (handler_ops InTxn ws evs) ++ [cut]) in
+  has_event_tag tag (durable s') = has_write_tag tag (durable s').
+Proof.
+  intros Hq (Hfw & Hfe) Hcut Hws Hevs Hnw Hne s'.
+  destruct (cut_in_txn s ws evs k cut Hq Hcut) as [H|H]; unfold s'; rewrite H.
+  - congruence.
+  - rewrite run_block by exact Hq. simpl.
+    unfold has_event_tag, has_write_tag.
+    rewrite apply_items_writes, apply_items_log, item_writes_in_txn, !existsb_app.
+    rewrite (existsb_map_tag_w tag ws Hws Hnw).
+    rewrite (existsb_etag tag (snd _)), apply_items_tags, item_events_in_txn, <- existsb_etag.
+    destruct evs as [|e evs]; [congruence|]. inversion Hevs; subst. simpl. rewrite N.eqb_refl.
+    now rewrite !orb_true_r.
+Qed.
+
+(* run to completion: both are there *)
+Theorem in_txn_complete s ws evs tag :
+  quiescent s ->
+  Forall (fun w => wr_tag w = tag) ws -> Forall (fun e => etag e = tag) evs -> ws <> [] -> evs <> [] ->
+  let s' := trun true s (handler_ops InTxn ws evs) in
+  has_event_tag tag (durable s') = true /\ has_write_tag tag (durable s') = true
+  /\ map unseq (published s') = map unseq (published s) ++ map unseq evs.
+Proof.
+  intros Hq Hws Hevs Hnw Hne s'. unfold s'. rewrite in_txn_ops, run_block by exact Hq. simpl.
+  unfold has_event_tag, has_write_tag.
+  rewrite apply_items_writes, apply_items_log, item_writes_in_txn, !existsb_app.
+  rewrite (existsb_map_tag_w tag ws Hws Hnw).
+  rewrite (existsb_etag tag (snd _)), apply_items_tags, item_events_in_txn, <- existsb_etag.
+  rewrite map_app, apply_items_events, item_events_in_txn.
+  destruct evs as [|e evs]; [congruence|]. inversion Hevs; subst. simpl. rewrite N.eqb_refl.
+  rewrite !orb_true_r. auto.
+Qed.
+
+(* nothing is handed to subscribers for a block that did not commit; a committed block's events are handed over *)
+Theorem aborted_block_publishes_nothing s items f :
+  quiescent s -> f <> FCommit ->
+  published (trun true s (block_ops (items, f))) = published s
+  /\ durable (trun true s (block_ops (items, f))) = durable s.
+Proof. intros Hq Hf. rewrite run_block by exact Hq. destruct f; try congruence; auto. Qed.
+
+Theorem committed_block_publishes s items :
+  quiescent s ->
+  map unseq (published (trun true s (block_ops (items, FCommit)))) = map unseq (published s) ++ map unseq (item_events items).
+Proof. intros Hq. rewrite run_block by exact Hq. simpl. now rewrite map_app, apply_items_events. Qed.
+
+(* ------------------------------------------------------------------------------------------------ *)
+(* C13: CompleteTask and CompleteStage (positions from Gen_Events: these proofs fail to compile when a record call
+   is moved out of its `with self.repository.transaction(...)` block)                                *)
+(* ------------------------------------------------------------------------------------------------ *)
+
+Theorem complete_task_atomic s tag t st k cut :
+  quiescent s -> fresh tag s -> (cut = OCrash \/ cut = OAbort) -> status_eqb st SKIPPED = false ->
+  has_event_tag tag (durable (trun true s (firstn k (lstep_ops tag (LCompleteTask t st)) ++ [cut])))
+  = has_write_tag tag (durable (trun true s (firstn k (lstep_ops tag (LCompleteTask t st)) ++ [cut]))).
+Proof.
+  intros Hq Hf Hcut Hs. unfold lstep_ops, lstep_pos.
+  change (pos_of_flag complete_task_event_in_txn) with InTxn.
+  destruct st; try discriminate; apply in_txn_atomic; auto; cbn; repeat constructor; discriminate.
+Qed.
+
+Theorem complete_task_done s tag t st :
+  quiescent s -> status_eqb st SKIPPED = false ->
+  has_event_tag tag (durable (trun true s (lstep_ops tag (LCompleteTask t st)))) = true
+  /\ has_write_tag tag (durable (trun true s (lstep_ops tag (LCompleteTask t st)))) = true.
+Proof.
+  intros Hq Hs. unfold lstep_ops, lstep_pos.
+  change (pos_of_flag complete_task_event_in_txn) with InTxn.
+  destruct st; try discriminate;
+    (edestruct in_txn_complete as (H1 & H2 & _); [exact Hq| | | | |split; [exact H1|exact H2]]);
+    cbn; repeat constructor; discriminate.
+Qed.
+
+Theorem complete_stage_atomic s tag i st k cut :
+  quiescent s -> fresh tag s -> (cut = OCrash \/ cut = OAbort) ->
+  has_event_tag tag (durable (trun true s (firstn k (lstep_ops tag (LCompleteStage i st)) ++ [cut])))
+  = has_write_tag tag (durable (trun true s (firstn k (lstep_ops tag (LCompleteStage i st)) ++ [cut]))).
+Proof.
+  intros Hq Hf Hcut. unfold lstep_ops, lstep_pos.
+  change (pos_of_flag complete_stage_event_in_txn) with InTxn.
+  destruct st; apply in_txn_atomic; auto; cbn; repeat constructor; discriminate.
+Qed.
+
+Theorem complete_stage_done s tag i st :
+  quiescent s ->
+  has_event_tag tag (durable (trun true s (lstep_ops tag (LCompleteStage i st)))) = true
+  /\ has_write_tag tag (durable (trun true s (lstep_ops tag (LCompleteStage i st)))) = true.
+Proof.
+  intros Hq. unfold lstep_ops, lstep_pos.
+  change (pos_of_flag complete_stage_event_in_txn) with InTxn.
+  destruct st;
+    (edestruct in_txn_complete as (H1 & H2 & _); [exact Hq| | | | |split; [exact H1|exact H2]]);
+    cbn; repeat constructor; discriminate.
+Qed.
+
+(* any run of whole transaction blocks from the empty database leaves a quiescent state *)
+Lemma quiescent_after_blocks bs : quiescent (trun true init_tstate (blocks_ops bs)).
+Proof. apply (atomic_blocks bs init_tstate quiescent_init). Qed.
